@@ -698,3 +698,272 @@ Proof.
   unfold u_names_ok, u_tstages, same_dist_keys, same_shape, u_edge_names, u_edges in *.
   cbn [u_with_dists u_dists u_graph]. rewrite Hni, Hki, Hkoi, Hnc, Hkc, Hkoc, Hii, Hic. exact H2.
 Qed.
+
+Lemma b_dist_len b : b_names_ok b = true -> length (u_dist_items (b_contra b)) = length (u_dist_items (b_ipsi b)).
+Proof. intros H. rewrite <- (map_length fst), (b_dist_keys b H), map_length. reflexivity. Qed.
+Lemma b_items_len b : b_names_ok b = true -> length (b_items b) = b_num_spread b + length (u_dist_items (b_ipsi b)).
+Proof.
+  intros H. rewrite (b_num_spread_eq b H), (b_items_length b H), b_set_order_split, !app_length, !side_order_length. lia.
+Qed.
+
+Theorem bi_set_spec : C10_bi_set_spec_stmt.
+Proof.
+  intros b a kw Hok r. subst r.
+  pose proof (b_set_params_steps b a kw Hok) as Hst. cbv zeta in Hst.
+  unfold b_accepts. rewrite (b_new_split b a kw Hok).
+  set (lenT := side_len is_tumor_spread (b_symT b) b) in *. set (lenL := side_len sel_lnl (b_symL b) b) in *.
+  assert (HnS : b_num_spread b = lenT + lenL) by apply (b_num_spread_eq b Hok).
+  set (sT := side_plan is_tumor_spread (b_symT b) b a kw) in *.
+  set (sL := side_plan sel_lnl (b_symL b) b (skipn lenT a) kw) in *.
+  rewrite app_assoc.
+  assert (Hlen : length (sT ++ sL) = b_num_spread b) by (rewrite app_length; unfold sT, sL; rewrite !side_plan_length; lia).
+  rewrite firstn_app_len, skipn_app_len by exact Hlen. rewrite all_unit_app. rewrite HnS in *.
+  destruct (all_unit sT) as [qsT|] eqn:ET; [|exact Hst].
+  destruct (all_unit sL) as [qsL|] eqn:EL; [|exact Hst]. cbn [is_some andb].
+  set (pDi := plan (side_lk "ipsi" kw) (u_dist_items (b_ipsi b)) (skipn (lenT + lenL) a)) in *.
+  set (pDc := plan (side_lk "contra" kw) (u_dist_items (b_contra b)) (skipn (lenT + lenL) a)) in *.
+  destruct (dists_put (u_maxt (b_ipsi b)) (u_dists (b_ipsi b)) pDi) as [dsi|] eqn:EDi; [|exact Hst].
+  destruct (dists_put (u_maxt (b_contra b)) (u_dists (b_contra b)) pDc) as [dsc|] eqn:EDc; [|exact Hst]. cbn [is_some andb].
+  fold (b_final b qsT qsL dsi dsc) in Hst. rewrite Hst. cbn [fst snd].
+  (* lengths and shapes of the pieces *)
+  pose proof (all_unit_length _ _ ET) as HlT. pose proof (all_unit_length _ _ EL) as HlL.
+  unfold sT, sL in HlT, HlL. rewrite side_plan_length in HlT, HlL. fold lenT in HlT. fold lenL in HlL.
+  destruct (all_unit_Some_vals _ _ ET) as [EsT _]. destruct (all_unit_Some_vals _ _ EL) as [EsL _].
+  assert (HlDi : length pDi = length (u_dist_items (b_ipsi b))) by apply plan_length.
+  assert (HlDc : length pDc = length (u_dist_items (b_contra b))) by apply plan_length.
+  destruct (dists_put_spec _ _ _ _ EDi HlDi) as (qD & HuD & HiD & _). apply unwrap_Some in HuD.
+  assert (HlqD : length qD = length (u_dist_items (b_ipsi b))) by (rewrite <- HlDi, HuD, vals_length; reflexivity).
+  pose proof (final_names_ok b qsT qsL dsi dsc pDi pDc Hok EDi HlDi EDc HlDc) as Hok'.
+  destruct (b_final_leaf_items b qsT qsL dsi dsc Hok HlT HlL) as (HTi & HLi & HTc & HLc & HDi). cbv zeta in HTi, HLi, HTc, HLc, HDi.
+  destruct (part_lengths is_tumor_spread (b_symT b) b qsT kind_sel_tumor Hok HlT) as [Hp1 Hp2].
+  destruct (part_lengths sel_lnl (b_symL b) b qsL kind_sel_lnl Hok HlL) as [Hp3 Hp4].
+  exists (qsT ++ qsL ++ qD).
+  split; [rewrite EsT, EsL, HuD, !vals_app, <- app_assoc; reflexivity|].
+  split; [rewrite skipn_skipn, (b_items_len b Hok), HnS, (b_dist_len b Hok); do 2 f_equal; lia|].
+  rewrite (b_got_spec _ Hok').
+  (* the reported items of the new object *)
+  assert (Hsym : b_symT (b_final b qsT qsL dsi dsc) = b_symT b /\ b_symL (b_final b qsT qsL dsi dsc) = b_symL b) by (split; reflexivity).
+  destruct Hsym as [HsT HsL].
+  assert (Hitems : b_items (b_final b qsT qsL dsi dsc)
+    = match b_symT b, b_symL b with
+      | true, true => combine (map fst (u_tumor_items (b_ipsi b))) (part_i is_tumor_spread b qsT)
+                      ++ combine (map fst (u_lnl_items (b_ipsi b))) (part_i sel_lnl b qsL) ++ combine (map fst (u_dist_items (b_ipsi b))) qD
+      | true, false => combine (map fst (u_tumor_items (b_ipsi b))) (part_i is_tumor_spread b qsT)
+                      ++ pre ["ipsi"] (combine (map fst (u_lnl_items (b_ipsi b))) (part_i sel_lnl b qsL))
+                      ++ pre ["contra"] (combine (map fst (u_lnl_items (b_contra b))) (part_c sel_lnl (b_symL b) b qsL))
+                      ++ combine (map fst (u_dist_items (b_ipsi b))) qD
+      | false, true => pre ["ipsi"] (combine (map fst (u_tumor_items (b_ipsi b))) (part_i is_tumor_spread b qsT))
+                      ++ pre ["contra"] (combine (map fst (u_tumor_items (b_contra b))) (part_c is_tumor_spread (b_symT b) b qsT))
+                      ++ combine (map fst (u_lnl_items (b_ipsi b))) (part_i sel_lnl b qsL) ++ combine (map fst (u_dist_items (b_ipsi b))) qD
+      | false, false => pre ["ipsi"] (combine (map fst (u_tumor_items (b_ipsi b))) (part_i is_tumor_spread b qsT)
+                                      ++ combine (map fst (u_lnl_items (b_ipsi b))) (part_i sel_lnl b qsL))
+                      ++ pre ["contra"] (combine (map fst (u_tumor_items (b_contra b))) (part_c is_tumor_spread (b_symT b) b qsT)
+                                         ++ combine (map fst (u_lnl_items (b_contra b))) (part_c sel_lnl (b_symL b) b qsL))
+                      ++ combine (map fst (u_dist_items (b_ipsi b))) qD
+      end).
+  { unfold b_items. rewrite HsT, HsL, HTi, HLi, HTc, HLc, HDi, HiD. destruct (b_symT b), (b_symL b); reflexivity. }
+  split.
+  - (* same names *)
+    rewrite Hitems. unfold b_items.
+    destruct (b_symT b), (b_symL b); rewrite ?map_app, ?pre_keys, ?map_app, ?map_fst_combine; try reflexivity;
+      rewrite ?map_length; auto.
+  - split; [|exact Hok'].
+    intros k q Hin. apply kw_get_NoDup_In.
+    + apply b_items_NoDup, Hok'.
+    + rewrite Hitems. rewrite b_set_order_split, !map_app in Hin.
+      rewrite combine_app in Hin by (rewrite map_length, side_order_length; lia).
+      rewrite combine_app in Hin by (rewrite map_length, side_order_length; lia).
+      rewrite (combine_side_order is_tumor_spread (b_symT b) b qsT kind_sel_tumor Hok HlT) in Hin.
+      rewrite (combine_side_order sel_lnl (b_symL b) b qsL kind_sel_lnl Hok HlL) in Hin.
+      change (u_sel_items is_tumor_spread) with u_tumor_items in Hin. change (u_sel_items sel_lnl) with u_lnl_items in Hin.
+      destruct (b_symT b), (b_symL b); rewrite ?pre_app in *; rewrite ?in_app_iff in *; tauto.
+Qed.
+
+(** * Corollaries *)
+Lemma b_order_same_names b k : In k (map fst (b_items b)) <-> In k (map fst (b_set_order b)).
+Proof.
+  unfold b_set_order. destruct (b_symT b) eqn:ET, (b_symL b) eqn:EL; try tauto.
+  unfold b_items. rewrite ET, EL. rewrite !map_app, !pre_app, !map_app, !in_app_iff. tauto.
+Qed.
+Lemma b_not_raise_accepts b a kw : b_names_ok b = true -> snd (b_set_params b a kw) <> None -> b_accepts b a kw = true.
+Proof.
+  intros H Hr. pose proof (bi_set_spec b a kw H) as Hs. cbv zeta in Hs. destruct (b_accepts b a kw); [reflexivity | contradiction].
+Qed.
+Lemma dict_determined (l : list (path * Qc)) : forall ks qs, map fst l = ks -> NoDup ks -> length qs = length ks ->
+  (forall k q, In (k, q) (combine ks qs) -> kw_get k l = Some q) -> l = combine ks qs.
+Proof.
+  induction l as [|[k x] l IH]; intros ks qs Hk Hnd Hl H; cbn [map fst] in Hk; subst ks.
+  - destruct qs; [reflexivity | discriminate].
+  - destruct qs as [|q qs]; [discriminate|]. cbn [combine]. inversion Hnd as [|? ? Hni Hnd']; subst.
+    pose proof (H k q (or_introl eq_refl)) as H0. cbn [kw_get] in H0. rewrite path_eqb_refl in H0. injection H0 as ->.
+    f_equal. apply IH; [reflexivity | exact Hnd' | cbn in Hl; lia |].
+    intros k' q' Hin. pose proof (H k' q' (or_intror Hin)) as H1. cbn [kw_get] in H1.
+    rewrite path_eqb_neq in H1; [exact H1|]. intros ->. apply Hni. apply in_combine_l in Hin. exact Hin.
+Qed.
+
+Lemma b_lk_nil k : b_lk [] k = None.
+Proof.
+  assert (Hs : forall side t, side_lk side [] t = None).
+  { intros side [|n t]; [reflexivity|]. unfold side_lk, eff. rewrite !kw_last_nil'.
+    destruct (mem (head_of (n :: t)) sides), (mem (head_of t) sides); reflexivity. }
+  destruct k as [|h t]; [reflexivity|]. unfold b_lk. destruct (String.eqb h "ipsi"), (String.eqb h "contra"); apply Hs.
+Qed.
+
+Theorem bi_set_get_positional : C10_bi_set_get_positional_stmt.
+Proof.
+  intros b v rest Hok Hsym Hl r Hr. subst r.
+  assert (Hord : b_set_order b = b_items b).
+  { unfold b_set_order. destruct (b_symT b), (b_symL b); try reflexivity. discriminate Hsym. }
+  pose proof (bi_set_spec b (vals v ++ rest) [] Hok) as Hs. cbv zeta in Hs.
+  rewrite (b_not_raise_accepts b _ _ Hok Hr) in Hs. destruct Hs as (qs & Hq & Hsnd & Hnames & Hget & _).
+  assert (Hnew : b_new b (vals v ++ rest) [] = vals v).
+  { unfold b_new. rewrite Hord. apply plan_no_kw; [intros; apply b_lk_nil | exact Hl]. }
+  rewrite Hnew in Hq. apply vals_inj in Hq. subst qs. rewrite Hord in Hget.
+  assert (Hgot : b_got (fst (b_set_params b (vals v ++ rest) [])) = combine (map fst (b_items b)) v).
+  { apply dict_determined; [exact Hnames | apply b_items_NoDup, Hok | rewrite map_length; exact Hl | exact Hget]. }
+  split; [rewrite Hsnd; f_equal; apply skipn_app_len; rewrite vals_length; exact Hl|].
+  rewrite Hgot. split; [apply map_snd_combine | apply map_fst_combine]; rewrite map_length; symmetry; exact Hl.
+Qed.
+
+Theorem bi_keyword_over_positional : C10_bi_keyword_over_positional_stmt.
+Proof.
+  intros b a kw k q Hok Hk Hlk r Hr. subst r.
+  pose proof (bi_set_spec b a kw Hok) as Hs. cbv zeta in Hs.
+  rewrite (b_not_raise_accepts b _ _ Hok Hr) in Hs. destruct Hs as (qs & Hq & _ & _ & Hget & _).
+  apply Hget. apply (plan_In (b_lk kw) (b_set_order b) a qs k q Hq); [apply b_order_same_names, Hk | exact Hlk].
+Qed.
+
+(** shape of the reported names *)
+Lemma in_pre_keys p (X : list (path * Qc)) k : In k (map fst (pre p X)) <-> exists k', k = p ++ k' /\ In k' (map fst X).
+Proof.
+  rewrite pre_keys, in_map_iff. split; intros (k' & H1 & H2); exists k'; split; auto.
+Qed.
+Lemma spread_key_form u k : In k (map fst (u_tumor_items u)) \/ In k (map fst (u_lnl_items u)) -> exists n s, k = [n; s] /\ EN u n.
+Proof.
+  intros H. assert (H' : In k (map fst (u_tumor_items u ++ u_lnl_items u))) by (rewrite map_app, in_app_iff; exact H).
+  apply u_spread_key_head in H'. destruct H' as (n & s & -> & Hn & _). eauto.
+Qed.
+Lemma dist_key_form u k : In k (map fst (u_dist_items u)) -> exists t s, k = [t; s] /\ TS u t.
+Proof. intros H. apply dists_items_heads in H. destruct H as (t & s & Ht & -> & _). eauto. Qed.
+
+Section BiNames.
+  Variable b : bilateral.
+  Hypothesis Hok : b_names_ok b = true.
+  Let i := b_ipsi b.
+  Let c := b_contra b.
+  Let Hi : u_names_ok i = true := proj1 (b_names_ok_parts b Hok).
+  Let Hc : u_names_ok c = true := proj1 (proj2 (b_names_ok_parts b Hok)).
+
+  Lemma not_side_EN n : EN i n -> n <> "ipsi" /\ n <> "contra".
+  Proof. intros H. split; intros ->; apply (EN_SIDE_disj i Hi _ H); [left | right]; reflexivity. Qed.
+  Lemma not_side_TS n : TS i n -> n <> "ipsi" /\ n <> "contra".
+  Proof. intros H. split; intros ->; apply (TS_SIDE_disj i Hi _ H); [left | right]; reflexivity. Qed.
+
+  (** every reported name is "ipsi_x_y", "contra_x_y" or a plain "x_y" whose "ipsi_x_y" is not reported *)
+  Lemma b_name_form k : In k (map fst (b_items b)) ->
+    (exists n t, k = "ipsi" :: n :: t) \/ (exists n t, k = "contra" :: n :: t) \/
+    (exists n t, k = n :: t /\ n <> "ipsi" /\ n <> "contra" /\ ~ In ("ipsi" :: k) (map fst (b_items b))).
+  Proof.
+    assert (HTc : forall k', In k' (map fst (u_tumor_items c)) <-> In k' (map fst (u_tumor_items i)))
+      by (intros k'; unfold c, i; rewrite (contra_T_keys b Hok); tauto).
+    assert (HLc : forall k', In k' (map fst (u_lnl_items c)) <-> In k' (map fst (u_lnl_items i)))
+      by (intros k'; unfold c, i; rewrite (contra_L_keys b Hok); tauto).
+    assert (HTL : forall k', In k' (map fst (u_tumor_items i)) -> In k' (map fst (u_lnl_items i)) -> False)
+      by (intros k' H1 H2; exact (u_tumor_lnl_disjoint i k' Hi H2 H1)).
+    assert (HTD : forall k', In k' (map fst (u_tumor_items i)) \/ In k' (map fst (u_lnl_items i)) -> In k' (map fst (u_dist_items i)) -> False).
+    { intros k' H1 H2. apply spread_key_form in H1. destruct H1 as (n & s & -> & Hn). apply dist_key_form in H2.
+      destruct H2 as (t & s' & [= -> _] & Ht). exact (EN_TS_disj i Hi _ Hn Ht). }
+    assert (Hplain : forall k', In k' (map fst (u_tumor_items i)) \/ In k' (map fst (u_lnl_items i)) \/ In k' (map fst (u_dist_items i)) ->
+              exists n t, k' = n :: t /\ n <> "ipsi" /\ n <> "contra").
+    { intros k' [H|[H|H]].
+      - destruct (spread_key_form i k' (or_introl H)) as (n & s & -> & Hn). destruct (not_side_EN n Hn). eauto.
+      - destruct (spread_key_form i k' (or_intror H)) as (n & s & -> & Hn). destruct (not_side_EN n Hn). eauto.
+      - destruct (dist_key_form i k' H) as (n & s & -> & Hn). destruct (not_side_TS n Hn). eauto. }
+    assert (Hpref : forall side k', In k' (map fst (u_tumor_items i)) \/ In k' (map fst (u_lnl_items i)) -> exists n t, side :: k' = side :: n :: t).
+    { intros side k' H. destruct (spread_key_form i k' H) as (n & s & -> & _). eauto. }
+    unfold b_items. fold i c. destruct (b_symT b), (b_symL b);
+      rewrite ?map_app, ?pre_app, ?map_app, ?in_app_iff, ?in_pre_keys; intros Hin.
+    - (* sym, sym: only plain names *)
+      right. right. destruct (Hplain k Hin) as (n & t & -> & H1 & H2). exists n, t. repeat split; try assumption.
+      rewrite !in_app_iff. intros Hx. destruct (Hplain _ Hx) as (n' & t' & [= <- _] & Hne & _). congruence.
+    - destruct Hin as [Hin|[(k' & -> & Hk')|[(k' & -> & Hk')|Hin]]].
+      + right. right. destruct (Hplain k (or_introl Hin)) as (n & t & -> & H1 & H2). exists n, t. repeat split; try assumption.
+        rewrite !in_app_iff, !in_pre_keys. intros [Hx|[(k' & [= <-] & Hk')|[(k' & [=] & _)|Hx]]].
+        * destruct (Hplain _ (or_introl Hx)) as (n' & t' & [= <- _] & Hne & _). congruence.
+        * exact (HTL _ Hin Hk').
+        * destruct (Hplain _ (or_intror (or_intror Hx))) as (n' & t' & [= <- _] & Hne & _). congruence.
+      + left. apply (Hpref "ipsi"). right. exact Hk'.
+      + right. left. apply (Hpref "contra"). right. apply HLc, Hk'.
+      + right. right. destruct (Hplain k (or_intror (or_intror Hin))) as (n & t & -> & H1 & H2). exists n, t. repeat split; try assumption.
+        rewrite !in_app_iff, !in_pre_keys. intros [Hx|[(k' & [= <-] & Hk')|[(k' & [=] & _)|Hx]]].
+        * destruct (Hplain _ (or_introl Hx)) as (n' & t' & [= <- _] & Hne & _). congruence.
+        * exact (HTD _ (or_intror Hk') Hin).
+        * destruct (Hplain _ (or_intror (or_intror Hx))) as (n' & t' & [= <- _] & Hne & _). congruence.
+    - destruct Hin as [(k' & -> & Hk')|[(k' & -> & Hk')|[Hin|Hin]]].
+      + left. apply (Hpref "ipsi"). left. exact Hk'.
+      + right. left. apply (Hpref "contra"). left. apply HTc, Hk'.
+      + right. right. destruct (Hplain k (or_intror (or_introl Hin))) as (n & t & -> & H1 & H2). exists n, t. repeat split; try assumption.
+        rewrite !in_app_iff, !in_pre_keys. intros [(k' & [= <-] & Hk')|[(k' & [=] & _)|[Hx|Hx]]].
+        * exact (HTL _ Hk' Hin).
+        * destruct (Hplain _ (or_intror (or_introl Hx))) as (n' & t' & [= <- _] & Hne & _). congruence.
+        * destruct (Hplain _ (or_intror (or_intror Hx))) as (n' & t' & [= <- _] & Hne & _). congruence.
+      + right. right. destruct (Hplain k (or_intror (or_intror Hin))) as (n & t & -> & H1 & H2). exists n, t. repeat split; try assumption.
+        rewrite !in_app_iff, !in_pre_keys. intros [(k' & [= <-] & Hk')|[(k' & [=] & _)|[Hx|Hx]]].
+        * exact (HTD _ (or_introl Hk') Hin).
+        * destruct (Hplain _ (or_intror (or_introl Hx))) as (n' & t' & [= <- _] & Hne & _). congruence.
+        * destruct (Hplain _ (or_intror (or_intror Hx))) as (n' & t' & [= <- _] & Hne & _). congruence.
+    - destruct Hin as [[(k' & -> & Hk')|(k' & -> & Hk')]|[[(k' & -> & Hk')|(k' & -> & Hk')]|Hin]].
+      + left. apply (Hpref "ipsi"). left. exact Hk'.
+      + left. apply (Hpref "ipsi"). right. exact Hk'.
+      + right. left. apply (Hpref "contra"). left. apply HTc, Hk'.
+      + right. left. apply (Hpref "contra"). right. apply HLc, Hk'.
+      + right. right. destruct (Hplain k (or_intror (or_intror Hin))) as (n & t & -> & H1 & H2). exists n, t. repeat split; try assumption.
+        rewrite !in_app_iff, !in_pre_keys.
+        intros [[(k' & [= <-] & Hk')|(k' & [= <-] & Hk')]|[[(k' & [=] & _)|(k' & [=] & _)]|Hx]].
+        * exact (HTD _ (or_introl Hk') Hin).
+        * exact (HTD _ (or_intror Hk') Hin).
+        * destruct (Hplain _ (or_intror (or_intror Hx))) as (n' & t' & [= <- _] & Hne & _). congruence.
+  Qed.
+End BiNames.
+
+Lemma b_lk_kw_of b v k x : b_names_ok b = true -> length v = length (b_items b) ->
+  In (k, x) (combine (map fst (b_items b)) (vals v)) -> b_lk (kw_of (map fst (b_items b)) v) k = Some x.
+Proof.
+  intros Hok Hl Hin. set (names := map fst (b_items b)) in *. set (kw := kw_of names v).
+  assert (Hnd : NoDup (map fst kw)).
+  { unfold kw, kw_of. rewrite map_fst_combine; [apply b_items_NoDup, Hok | unfold names; rewrite vals_length, map_length; lia]. }
+  assert (Hk : In k names) by (apply in_combine_l in Hin; exact Hin).
+  assert (Hlast : kw_last k kw = Some x) by (rewrite kw_last_NoDup by exact Hnd; apply kw_get_NoDup_In; [exact Hnd | exact Hin]).
+  assert (Hnone : forall k', ~ In k' names -> kw_last k' kw = None).
+  { intros k' Hni. rewrite kw_last_NoDup by exact Hnd. apply kw_get_In_None. unfold kw, kw_of.
+    rewrite map_fst_combine; [exact Hni | unfold names; rewrite vals_length, map_length; lia]. }
+  destruct (b_name_form b Hok k Hk) as [(n & t & ->)|[(n & t & ->)|(n & t & -> & H1 & H2 & Hni)]].
+  - cbn [b_lk String.eqb Ascii.eqb Bool.eqb]. unfold side_lk, eff. rewrite Hlast. reflexivity.
+  - cbn [b_lk]. change (String.eqb "contra" "ipsi") with false. change (String.eqb "contra" "contra") with true. cbv iota.
+    unfold side_lk, eff. rewrite Hlast. reflexivity.
+  - rewrite b_lk_plain by assumption. unfold side_lk, eff. rewrite (Hnone _ Hni).
+    unfold head_of. cbn [partition_key fst mem sides]. apply str_eqb_neq in H1, H2. rewrite H1, H2. cbn [orb]. rewrite Hlast. reflexivity.
+Qed.
+
+Theorem bi_set_get_keyword : C10_bi_set_get_keyword_stmt.
+Proof.
+  intros b v Hok Hl r Hr. subst r. set (names := map fst (b_items b)) in *. set (kw := kw_of names v) in *.
+  pose proof (bi_set_spec b [] kw Hok) as Hs. cbv zeta in Hs.
+  rewrite (b_not_raise_accepts b _ _ Hok Hr) in Hs. destruct Hs as (qs & Hq & Hsnd & Hnames & Hget & _).
+  assert (Hgot : b_got (fst (b_set_params b [] kw)) = combine names v).
+  { apply dict_determined; [exact Hnames | apply b_items_NoDup, Hok | unfold names; rewrite map_length; exact Hl |].
+    intros k q Hin.
+    assert (Hk : In k names) by (apply in_combine_l in Hin; exact Hin).
+    assert (Hlk : b_lk kw k = Some (V q)).
+    { apply b_lk_kw_of; [exact Hok | exact Hl|]. unfold vals. fold names.
+      clear - Hin. revert Hin. generalize names as ks. intros ks. revert v. induction ks as [|k0 ks IH]; intros [|x v] Hin; cbn in *; try tauto.
+      destruct Hin as [[= <- <-]|Hin]; [left; reflexivity | right; apply IH, Hin]. }
+    apply Hget. apply (plan_In (b_lk kw) (b_set_order b) [] qs k q Hq); [apply b_order_same_names, Hk | exact Hlk]. }
+  split; [rewrite Hsnd; destruct (length (b_items b)); reflexivity|].
+  rewrite Hgot. split; [apply map_snd_combine | apply map_fst_combine]; unfold names; rewrite map_length; symmetry; exact Hl.
+Qed.
+
+Theorem bi_names_nodup : C10_bi_names_nodup_stmt.
+Proof. intros b H. split; [apply b_got_spec, H | apply b_items_NoDup, H]. Qed.
+Theorem bi_nested_flattens_to_flat : C10_bi_nested_flattens_to_flat_stmt.
+Proof. intros b H. apply b_nested_flattens_to_flat, H. Qed.
